@@ -120,7 +120,7 @@ void runOnce(const Args&) {}
 void runCase(long long i, Prng& r, const Args& a) {
   const ref::Group& g = RG();
   Ctx c; c.a = &a; c.i = i;
-  GenOpt o; o.thetaMax = PI - 1e-3; o.nearPiMin = 1e-3; o.linMax = 1e3;
+  GenOpt o; o.thetaMax = PI - 1e-3; o.nearPiMin = 1e-3; o.linMax = 1e3; o.exactCoeff = 0.03;
   std::string l2;
   c.X = groupFrom<MonG>(genElement<MonS>(g, r, o, c.cell));
   c.t = tangentFrom<MonT>(genTangent<MonS>(g, r, o, l2)); c.s = tangentFrom<MonT>(genTangent<MonS>(g, r, o, l2));
